@@ -25,8 +25,8 @@ func init() {
 		Level: "exploration",
 		Rule: "every input goes to six entry points (sml.Parse, sml.ParseStrict, Parser.ParseMessage and Parser.ParseHeader in both modes) inside plain-build child processes capped at 4 GiB of address space. " +
 			"phase inputs, deterministic units: (E) EXHAUSTIVE all strings of 1..2 (thorough: 1..3) symbols over a 40-symbol alphabet of structural characters / token representatives / hostile bytes, embedded in 22 grammar contexts; " +
-			"(M) grammar-directed mutations of generated valid SML: every truncation, token drop/duplicate/swap, unbalanced brackets, unterminated or mis-quoted strings in A/J/W items, 33 hostile size hints on every item " +
-			"(0, 1, 10^5, 2^31, 2^32, 2^64, negative, [..n], [n..], malformed), NUL / multi-byte / invalid-UTF-8 inserts at every token boundary, unterminated comments, byte flips; (H) size hints 0..10^6 on all 16 item types, each metered; " +
+			"(M) grammar-directed mutations of generated valid SML: every truncation, token drop/duplicate/swap, unbalanced brackets, unterminated or mis-quoted strings in A/J/W items, 39 hostile size hints on every item " +
+			"(0, 1, 10^5, 2^31, 2^32, 2^63-2..2^63, 2^64, negative, [..n], [n..], malformed), NUL / multi-byte / invalid-UTF-8 inserts at every token boundary, unterminated comments, byte flips; (H) size hints 0..10^6 on all 16 item types, each metered; " +
 			"(N) nesting 1..10^5 in five shapes; (L) long inputs; (R) random bytes. Inputs of phase inputs whose size hint may be read as a claim above 2*10^6 elements are diverted (counted) to the danger shards. phase danger-scaling, shards 0..12 (danger): one shard per family of inputs that may need resources unrelated to the input length (size hints up to 2^31-1 in every form, nesting 5*10^5..10^7), " +
 			"ascending, each written to disk before it runs, so that a process death is attributed to the input and the other shards still complete. the remaining 12 shards (scaling): 12 input families at n,2n,4n,8n, thread CPU time (CLOCK_THREAD_CPUTIME_ID). " +
 			"phase race: 16 goroutines with their own Parser/Encoder instances against per-goroutine sequential baselines. " +
@@ -505,7 +505,9 @@ func (st *c14State) hints(k int) {
 		value = "1.5"
 	}
 	hs := []string{"0", "1", "2", "255", "65536", "100000", "1000000", "..100000", "0..100000", "100000..", "1..100000", "2147483648", "4294967295", "4294967296",
-		"18446744073709551615", "18446744073709551616", "-1", "100000..1", " 100000 "}
+		"18446744073709551615", "18446744073709551616", "-1", "100000..1", " 100000 ",
+		"2147483649", "4294967297", "9223372036854775806", "9223372036854775807", "9223372036854775808", "..9223372036854775807", "0..9223372036854775807",
+		"1..9223372036854775807", "9223372036854775807..", "0009223372036854775807"}
 	for _, h := range hs {
 		for _, form := range []string{"S1F1 W\n<%s[%s] %s>\n.", "S1F1 W\n<L <%s[%s] %s> <U1 1>>\n.", "S1F1 W\n<%s[%s] %s"} {
 			in := fmt.Sprintf(form, tn, h, value)
